@@ -377,6 +377,18 @@ pub fn size_world() -> World {
         // nothing coded at all: every macroblock skipped, and a header with no macroblock data
         ops.push(GOp::pic(&format!("P-skip({w}x{h})"), Pic { hdr: shdr(w, h, 1, 30 + si as u8, 5, 0), mbs: (0..n).map(|_| Mb::NotCoded).collect() }));
         ops.push(GOp::pic(&format!("D-empty({w}x{h})"), Pic { hdr: shdr(w, h, 2, 40 + si as u8, 5, 0), mbs: vec![] }));
+        // pictures of this shape that are rejected late - in their last macroblock, after a valid
+        // header of a size that may differ from the stored pictures': a forbidden INTRADC in an intra
+        // picture, an invalid MCBPC in a predicted one. Whatever the decoder prepared for the new
+        // size must not cost it the reference
+        let mut mbs: Vec<Mb> = (0..n - 1).map(|_| flat_mb(1)).collect();
+        mbs.push(Mb::Raw(vec![true, false, false, true, true, false, false, false, false, false, false, false, false]));
+        ops.push(GOp::Bad { label: format!("Bad-I({w}x{h},intradc-0-in-last-mb)"), bytes: encode_bytes(&Pic { hdr: shdr(w, h, 0, 50 + si as u8, 5, 0), mbs }) });
+        let mut mbs: Vec<Mb> = (0..n - 1).map(|_| flat_mb(2)).collect();
+        mbs.push(Mb::Raw(vec![false; 14]));
+        let mut b = encode_bytes(&Pic { hdr: shdr(w, h, 1, 60 + si as u8, 5, 0), mbs });
+        b.extend_from_slice(&[0, 0]);
+        ops.push(GOp::Bad { label: format!("Bad-P({w}x{h},invalid-mcbpc-in-last-mb)"), bytes: b });
     }
     ops.push(GOp::Cleanup);
     World { opts: 1, ops }
@@ -606,7 +618,7 @@ pub fn run(tier: Tier) -> Report {
     // the motion graph is depth-bounded by construction; the closed graphs reach a fixpoint
     *rep.exhaustive.lock().unwrap() = true;
     rep.set_rule(
-        "breadth-first search over operation histories on one H263State, de-duplicated on the decoder's entire state (hooked scalars + hash of every stored picture); closed graphs (flat contents, 32x16): every operation of the alphabet {I, Pa, Pb, Da, Db} x TR {0,1,255} x 3 contents + rejected inputs + cleanup from every reachable state, to a fixpoint; motion graph: depth-bounded with the depth in the key; size-change graph: intra/predicted/disposable pictures of five shapes incl. transposes (prediction across shapes must be rejected); every transition compared with a two-slot model (last, reference) and the reference decoder; non-trivial = states in which the most recent picture is not the reference",
+        "breadth-first search over operation histories on one H263State, de-duplicated on the decoder's entire state (hooked scalars + hash of every stored picture); closed graphs (flat contents, 32x16): every operation of the alphabet {I, Pa, Pb, Da, Db} x TR {0,1,255} x 3 contents + rejected inputs + cleanup from every reachable state, to a fixpoint; motion graph: depth-bounded with the depth in the key; size-change graph: intra/predicted/disposable pictures of five shapes incl. transposes (prediction across shapes must be rejected) + an intra and a predicted picture of every shape rejected in its last macroblock; every transition compared with a two-slot model (last, reference) and the reference decoder; non-trivial = states in which the most recent picture is not the reference",
     );
     rep.assume("state key read through the cfg-gated hook (exhaustive destructuring of H263State)");
     let _ = total_states;
